@@ -12,9 +12,21 @@ io_counters()` run in-process over a fake procfs:
   * descriptors that close during the scan: `os.readlink` / `open` raise ENOENT / ESRCH for the
     chosen descriptors (ENOENT on fdinfo is a really missing file); a process that dies at scan
     index k: the whole `/proc/<pid>` tree is removed just before the k-th readlink;
-  * `os.listdir` answers the names in table order (the kernel's order is the scan order).
+  * `os.listdir` answers the names in table order (the kernel's order is the scan order);
+  * permission: `os.readlink` / `open` / `os.listdir` raise EACCES for the chosen descriptors / the
+    fd directory / the io file, `os.stat` raises EACCES for every path under `<root>/sec/` (a
+    directory the monitor may not search); a zombie is a `/proc/<pid>/stat` whose state is `Z`;
+  * call MODES (chosen per case, exhaustively on the corpus): plain call; inside a fresh
+    `with p.oneshot():`; inside a oneshot block in which stat/status based methods AND the method
+    itself were already called on a different (decoy) descriptor table / io file before the world
+    changed to the case's one (none of the three is block-cached: the answer must be the current
+    world's); via `p.as_dict(attrs=[name], ad_value=…)` (AccessDenied / ZombieProcess become the
+    ad_value, NoSuchProcess propagates); on the object yielded by `psutil.process_iter()` (first
+    and second iteration = cached object); second call on an object that already answered once.
+    The model side is the same function of the file contents in every mode.
 The same case goes to the Lean driver, which prints model(x) and spec(x).
 """
+import contextlib
 import errno
 import os
 import shutil
@@ -31,15 +43,16 @@ NEEDS_EXT = True
 TRUSTED = [
     "C14 kernel formats (Spec/C14.lean): link texts of /proc/pid/fd (path, path+' (deleted)', socket:[i], pipe:[i], anon_inode:x), fdinfo = 'pos:\\t%lli\\nflags:\\t0%o\\n'+further lines, /proc/pid/io = 'name: %llu' lines; O_ACCMODE = flags mod 4, O_APPEND = 0o2000 (asm-generic ABI)",
     "C14 model of CPython: int() on (blank-padded) plain digit strings only (no sign, '_' or 0o prefix), bytes.split/strip/replace, dict as newest-first association list; surrogateescape decoding of link texts modelled as identity on bytes",
-    "C14 world: isfile_strict/path_exists_strict are total predicates (no EACCES); the process is alive or gone (no zombie: C03 covers the zombie rows of wrap_exceptions)",
+    "C14 world: os.stat of a target answers regular file / something else or nothing / EACCES (EPERM is the same PermissionError class); a process is running, a zombie (state Z in /proc/pid/stat) or gone; EACCES is injected at os.readlink, os.stat, open, os.listdir by the harness (not produced by a real permission check)",
 ]
 ASSUMPTIONS = [
-    "well-formed tables: a link text ending in ' (deleted)' is not ambiguous (no file literally carries that name next to an unlinked one), device/other absolute paths are not regular files, relative targets do not start with '/'",
+    "well-formed tables: a link text ending in ' (deleted)' is not ambiguous (no file literally carries that name next to an unlinked one), device/other absolute paths are not regular files, relative targets do not start with '/'; os.stat of a non-absolute link text (relative to the monitor's cwd) is never refused; a device path 'x (deleted)' whose 'x' cannot be stat'ed cannot be stat'ed itself",
+    "permission: a refusal (EACCES/EPERM) while listing /proc/pid/fd or inspecting any descriptor met while the process is still there is answered with AccessDenied(pid) (psutil's documented contract) — the reading 'an uninspectable descriptor is skipped' is refuted as a theorem (C14_uninspectable_not_skipped) and documented, not counted as a violation",
     "io theorems: counter names are words without ':' and each appears on one line; junk lines contain no ': '",
 ]
 MANIFEST = {
-    "level_text": "Machine-checked Lean 4 proofs over a model of _pslinux.Process.open_files/num_fds/io_counters, readlink() and file_flags_to_mode(): the mode string is the documented function of O_ACCMODE x O_APPEND for EVERY flag word (other bits proved irrelevant, total including access mode 3), open_files over the kernel-rendered descriptor table equals the list of still-open regular absolute descriptors for ALL tables (induction; pos decimal, flags octal round trip for all naturals), closing descriptors (before readlink, before the open of fdinfo, or after it at the first/second read; ENOENT/ESRCH; any subset) never fail a live process, a vanished process gives NoSuchProcess, num_fds = table length, io_counters returns the six kernel counters under the documented names for all values and tolerates blank / junk / unknown / non-numeric extra lines. Tied to the code by 27 translator facts consumed by the proof obligation cfg_good and by a differential run of the real front-end methods on a fake procfs (exhaustive over all 4096 low flag words, both through file_flags_to_mode and end to end).",
-    "level_note": "Trusted: Lean kernel + {propext, Classical.choice, Quot.sound}; the translator; the correspondence harness; kernel formats as written in Spec/C14.lean; CPython int/split/strip/replace as modelled; no EACCES from stat; no zombie state.",
+    "level_text": "Machine-checked Lean 4 proofs over a model of _pslinux.Process.open_files/num_fds/io_counters, readlink() and file_flags_to_mode(): the mode string is the documented function of O_ACCMODE x O_APPEND for EVERY flag word (other bits proved irrelevant, total including access mode 3), open_files over the kernel-rendered descriptor table equals the list of still-open regular absolute descriptors for ALL tables (induction; pos decimal, flags octal round trip for all naturals), closing descriptors (before readlink, before the open of fdinfo, or after it at the first/second read; ENOENT/ESRCH; any subset) never fail a live process, a vanished process gives NoSuchProcess, refusals (EACCES at the readlink, at the os.stat of the target through isfile_strict/path_exists_strict, at the open of fdinfo, at listing /proc/pid/fd) give AccessDenied(pid) and never a bare PermissionError or a silently shortened list, only a successfully stat'ed regular absolute target ever yields an entry (relative targets are never stat'ed), a zombie with an empty table gives [] / 0 and ENOENT/ESRCH about a zombie is ZombieProcess, num_fds = table length, io_counters returns the six kernel counters under the documented names for all values and tolerates blank / junk / unknown / non-numeric extra lines. Tied to the code by 34 translator facts (incl. the PermissionError rows of isfile_strict, path_exists_strict, the loop's handlers and wrap_exceptions) consumed by the proof obligations cfg_good_* and by a differential run of the real front-end methods on a fake procfs in seven call modes (plain, oneshot, warm oneshot after a world change, as_dict, process_iter object first/cached, second call) (exhaustive over all 4096 low flag words, both through file_flags_to_mode and end to end; all modes x methods on the corpus).",
+    "level_note": "Trusted: Lean kernel + {propext, Classical.choice, Quot.sound}; the translator; the correspondence harness; kernel formats as written in Spec/C14.lean; CPython int/split/strip/replace as modelled; EACCES and the zombie state are injected by the harness, not produced by a real kernel permission check.",
     "technique": "Lean 4 proofs (finite case analysis on flags via bit lemmas, list induction over tables, round trip of decimal/octal renderers) + translator-fed proof obligation + differential correspondence on a fake procfs",
     "design_ref": "DESIGN.md §5 C14",
 }
@@ -78,10 +91,29 @@ DEL = b" (deleted)"
 
 # real files created once per run under the root
 POOL_FILES = [b"f0", b"data.log", b"with space", b"x (deleted)", b"sub/inner.txt", b"caf\xc3\xa9",
-              b"raw\xff\xfe", b"amb", b"amb (deleted)", b"tab\there", b"f0 (deleted) (deleted)"]
+              b"raw\xff\xfe", b"amb", b"amb (deleted)", b"tab\there", b"f0 (deleted) (deleted)", b"new\nline", b"sub/nl\n"]
 POOL_DIRS = [b"dir", b"sub", b"dir (deleted)"]
 POOL_FIFOS = [b"fifo"]
 POOL_MISSING = [b"gone.txt", b"gone (deleted)", b"sub/none", b"dir/inside"]
+# every path under <root>/sec/ cannot be stat'ed by the monitor (os.stat → EACCES)
+SEC = b"sec/"
+POOL_DENIED = [b"sec/hidden.txt", b"sec/unlinked", b"sec/x (deleted)", b"sec/deep/er"]
+
+MODES = ["plain", "oneshot", "warm", "as_dict", "iter", "iter2", "second"]
+DECOY_MODES = ("warm", "second")
+AD_VALUE = "<<ad_value>>"
+
+
+def pick_mode(rng):
+    return "plain" if rng.random() < 0.4 else rng.choice(MODES[1:])
+
+
+def adapt(mode, obs):
+    """what the promised observable becomes in this call mode (only as_dict changes anything:
+    AccessDenied / ZombieProcess are replaced by the ad_value)"""
+    if mode == "as_dict" and obs is not None and obs.get("kind") == "exc" and obs.get("exc") in ("AccessDenied", "ZombieProcess"):
+        return {"kind": "ad_value"}
+    return obs
 
 
 # ------------------------------------------------------------------------------ implementation side
@@ -103,6 +135,7 @@ class Impl:
                 fh.write(b"x")
         for f in POOL_FIFOS:
             os.mkfifo(os.fsencode(self.root) + b"/" + f)
+        self.sec = os.fsencode(self.root) + b"/" + SEC
         self.real_readlink = os.readlink
         self.real_listdir = os.listdir
         self.stat_cache = {}
@@ -116,7 +149,9 @@ class Impl:
         if path_bytes in self.stat_cache:
             return self.stat_cache[path_bytes]
         r = "none"
-        if b"\x00" not in path_bytes and path_bytes:
+        if path_bytes.startswith(self.sec):
+            r = "denied"
+        elif b"\x00" not in path_bytes and path_bytes:
             try:
                 st = os.stat(path_bytes)
                 r = "file" if stat_mod.S_ISREG(st.st_mode) else "other"
@@ -127,7 +162,7 @@ class Impl:
 
     def fs_view(self, texts):
         """files / others lists for the driver: every name the code could possibly stat"""
-        files, others = [], []
+        files, others, denied = [], [], []
         seen = set()
         for t in texts:
             cands = [t, t.split(b"\x00")[0]]
@@ -143,19 +178,46 @@ class Impl:
                     files.append(c.hex())
                 elif k == "other":
                     others.append(c.hex())
-        return files, others
+                elif k == "denied":
+                    denied.append(c.hex())
+        return files, others, denied
 
     # ---- fake /proc/<pid>
-    def stat_line(self):
+    def stat_line(self, zombie=False):
         tail = " ".join(["0"] * 32)
-        return "%d (psv c14) S 1 %d %d 0 -1 4194560 100 0 0 0 5 3 0 0 20 0 1 0 12345 1000000 100 %s\n" % (
-            PID, PID, PID, tail)
+        return "%d (psv c14) %s 1 %d %d 0 -1 4194560 100 0 0 0 5 3 0 0 20 0 1 0 12345 1000000 100 %s\n" % (
+            PID, "Z" if zombie else "S", PID, PID, tail)
 
-    def build_proc(self, entries, io=None):
-        """entries: the driver's rendering [{name, link:{ok|err}, info:{ok|err}}]"""
+    STATUS = ("Name:\tpsv c14\nState:\tS (sleeping)\nTgid:\t%d\nPid:\t%d\nPPid:\t1\nUid:\t0\t0\t0\t0\n"
+              "Gid:\t0\t0\t0\t0\nThreads:\t1\nvoluntary_ctxt_switches:\t1\nnonvoluntary_ctxt_switches:\t2\n") % (PID, PID)
+
+    def build_decoy(self):
+        """a different world for the same pid: one regular descriptor 999, other io numbers"""
         fp = self.fp
         fp.remove(str(PID))
         fp.write("%d/stat" % PID, self.stat_line())
+        fp.write("%d/status" % PID, self.STATUS)
+        fp.mkdir("%d/fd" % PID)
+        fp.mkdir("%d/fdinfo" % PID)
+        base = fp.path("%d" % PID)
+        os.symlink(os.fsencode(self.root) + b"/f0", os.fsencode("%s/fd/999" % base))
+        fp.write("%d/fdinfo/999" % PID, b"pos:\t77\nflags:\t0100002\n")
+        fp.write("%d/io" % PID, b"rchar: 91\nwchar: 92\nsyscr: 93\nsyscw: 94\nread_bytes: 95\nwrite_bytes: 96\n"
+                                b"cancelled_write_bytes: 97\n")
+
+    def decoy_ok(self, what, obs):
+        if what == "open_files":
+            return obs.get("kind") == "ok" and [x["fd"] for x in obs["value"]] == [999]
+        if what == "num_fds":
+            return obs == {"kind": "ok", "value": 1}
+        return obs.get("kind") == "ok" and [v for _, v in obs["value"]] == [93, 94, 95, 96, 91, 92]
+
+    def build_proc(self, entries, io=None, zombie=False):
+        """entries: the driver's rendering [{name, link:{ok|err}, info:{ok|err}}]"""
+        fp = self.fp
+        fp.remove(str(PID))
+        fp.write("%d/stat" % PID, self.stat_line(zombie))
+        fp.write("%d/status" % PID, self.STATUS)
         fp.mkdir("%d/fd" % PID)
         fp.mkdir("%d/fdinfo" % PID)
         plan = {"readlink_err": {}, "readlink_text": {}, "open_err": {}, "read_err": {}, "order": []}
@@ -189,36 +251,88 @@ class Impl:
                     # the file opens; its 1st / 2nd read fails (descriptor closed after the open)
                     plan["read_err"][infopath] = (1 if info["read_err"]["second"] else 0,
                                                   getattr(errno, info["read_err"]["errno"]))
-            elif info["err"] == "ESRCH":
+            elif info["err"] in ("ESRCH", "EACCES"):
                 with open(infopath, "wb") as f:
                     f.write(b"pos:\t0\nflags:\t00\n")
-                plan["open_err"][infopath] = errno.ESRCH
+                plan["open_err"][infopath] = getattr(errno, info["err"])
             # ENOENT: the file really is not there
         if io is not None:
             if "ok" in io:
                 fp.write("%d/io" % PID, bytes.fromhex(io["ok"]))
                 if io.get("read_err"):
                     plan["read_err"]["%s/io" % base] = (int(io["read_err"].get("at", 0)), getattr(errno, io["read_err"]["errno"]))
-            elif io["err"] == "ESRCH":
+            elif io["err"] in ("ESRCH", "EACCES"):
                 fp.write("%d/io" % PID, b"")
-                plan["open_err"]["%s/io" % base] = errno.ESRCH
+                plan["open_err"]["%s/io" % base] = getattr(errno, io["err"])
         return plan
 
-    def call(self, what, plan, dies_at=None, gone_before=False, listdir_err=None, gone_after=False):
-        """Run one front-end method with the OS entry points patched according to `plan`."""
+    def canon(self, what, r):
+        if what == "open_files":
+            val = [{"path": os.fsencode(x.path).hex(), "fd": x.fd, "position": x.position,
+                    "mode": x.mode.encode().hex(), "flags": x.flags} for x in r]
+            if not all(isinstance(x.fd, int) and isinstance(x.position, int) and isinstance(x.flags, int)
+                       for x in r):
+                return {"kind": "wrong-type", "value": repr(r)}
+            return {"kind": "ok", "value": val}
+        if what == "num_fds":
+            return {"kind": "ok", "value": r} if type(r) is int else {"kind": "wrong-type", "value": repr(r)}
+        if what == "io_counters":
+            return {"kind": "ok", "value": [[k.encode().hex(), v] for k, v in r._asdict().items()]}
+        raise ValueError(what)
+
+    def observe(self, proc, what, mode):
+        """one front-end call → observable; every exception is an observable"""
+        ps = self.ps
+        try:
+            if mode == "as_dict":
+                r = proc.as_dict(attrs=[what], ad_value=AD_VALUE)[what]
+                if r is AD_VALUE:
+                    return {"kind": "ad_value"}
+            else:
+                r = getattr(proc, what)()
+            return self.canon(what, r)
+        except BaseException as e:  # noqa: BLE001 — every exception is an observable
+            if isinstance(e, (KeyboardInterrupt, SystemExit)):
+                raise
+            d = {"kind": "exc", "exc": type(e).__name__}
+            if isinstance(e, ps.Error) and getattr(e, "pid", PID) != PID:
+                d["wrong_pid"] = e.pid
+            return d
+
+    def obtain(self, mode):
+        ps = self.ps
+        if mode in ("iter", "iter2"):
+            got = None
+            for _ in range(2 if mode == "iter2" else 1):
+                got = None
+                for p in ps.process_iter():
+                    if p.pid == PID:
+                        got = p
+            if got is None:
+                raise RuntimeError("process_iter() did not yield pid %d" % PID)
+            return got
+        return ps.Process(PID)
+
+    def call(self, what, build, dies_at=None, gone_before=False, listdir_err=None, gone_after=False, mode="plain"):
+        """Run one front-end method in call mode `mode`, with the OS entry points patched according
+        to the plan returned by `build()` (which lays the case's world down under /proc/<pid>)."""
         ps = self.ps
         reset_psutil_state(ps)
         base = self.fp.path("%d" % PID)
         fd_dir = base + "/fd"
+        decoy = mode in DECOY_MODES
         try:
-            proc = ps.Process(PID)
+            if decoy:
+                self.build_decoy()
+            else:
+                plan = build()
+            proc = self.obtain(mode)
         except BaseException as e:  # noqa: BLE001
-            return {"kind": "harness-error", "detail": "Process(): %s %s" % (type(e).__name__, e)}
-        if gone_before:
-            self.fp.remove(str(PID))
+            return {"kind": "harness-error", "detail": "setup(%s): %s %s" % (mode, type(e).__name__, e)}
         state = {"reads": 0}
         real_readlink, real_listdir = self.real_readlink, self.real_listdir
         real_open = open
+        sec = self.sec
 
         def fake_readlink(path, *a, **kw):
             sp = os.fsdecode(path) if isinstance(path, bytes) else path
@@ -251,6 +365,8 @@ class Impl:
             # `_raise_if_not_alive` looks at /proc/<pid>: the process is reaped right before
             if gone_after and path in (base, base + "/stat"):
                 shutil.rmtree(base, ignore_errors=True)
+            if isinstance(path, (str, bytes)) and os.fsencode(path).startswith(sec):
+                raise OSError(errno.EACCES, os.strerror(errno.EACCES), path)
             return real_stat(path, *a, **kw)
 
         def fake_open(file, *a, **kw):
@@ -263,38 +379,36 @@ class Impl:
                 return FaultyFile(f, k, en, file)
             return f
 
-        self.common.open = fake_open
+        block = proc.oneshot() if mode in ("oneshot", "warm") else contextlib.nullcontext()
         try:
-            with patched(os, "readlink", fake_readlink), patched(os, "listdir", fake_listdir), \
-                    patched(os, "stat", fake_stat):
+            with block:
+                if decoy:
+                    # state left behind by earlier calls on the SAME object, on another world
+                    for warm in ("name", "ppid", "status", "cpu_times", "create_time", "uids", "num_threads"):
+                        try:
+                            getattr(proc, warm)()
+                        except Exception:  # noqa: BLE001
+                            pass
+                    first = self.observe(proc, what, "plain")
+                    if not self.decoy_ok(what, first):
+                        return {"kind": "harness-error", "detail": "decoy world answered %r" % (first,)}
+                    plan = build()          # the world changes
+                if gone_before:
+                    self.fp.remove(str(PID))
+                self.common.open = fake_open
                 try:
-                    if what == "open_files":
-                        r = proc.open_files()
-                        val = [{"path": os.fsencode(x.path).hex(), "fd": x.fd, "position": x.position,
-                                "mode": x.mode.encode().hex(), "flags": x.flags} for x in r]
-                        if not all(isinstance(x.fd, int) and isinstance(x.position, int) and isinstance(x.flags, int)
-                                   for x in r):
-                            return {"kind": "wrong-type", "value": repr(r)}
-                        return {"kind": "ok", "value": val}
-                    if what == "num_fds":
-                        r = proc.num_fds()
-                        return {"kind": "ok", "value": r} if type(r) is int else {"kind": "wrong-type", "value": repr(r)}
-                    if what == "io_counters":
-                        r = proc.io_counters()
-                        return {"kind": "ok", "value": [[k.encode().hex(), v] for k, v in r._asdict().items()]}
-                    raise ValueError(what)
-                except BaseException as e:  # noqa: BLE001 — every exception is an observable
-                    if isinstance(e, (KeyboardInterrupt, SystemExit)):
-                        raise
-                    d = {"kind": "exc", "exc": type(e).__name__}
-                    if isinstance(e, ps.Error) and getattr(e, "pid", PID) != PID:
-                        d["wrong_pid"] = e.pid
-                    return d
-        finally:
-            try:
-                del self.common.open
-            except AttributeError:
-                pass
+                    with patched(os, "readlink", fake_readlink), patched(os, "listdir", fake_listdir), \
+                            patched(os, "stat", fake_stat):
+                        return self.observe(proc, what, mode)
+                finally:
+                    try:
+                        del self.common.open
+                    except AttributeError:
+                        pass
+        except BaseException as e:  # noqa: BLE001 — leaving the oneshot block must not raise
+            if isinstance(e, (KeyboardInterrupt, SystemExit)):
+                raise
+            return {"kind": "exc", "exc": "oneshot-exit:" + type(e).__name__}
 
 
 class FaultyFile:
@@ -375,10 +489,11 @@ def table_line(impl, case):
         if k["t"] == "relative":
             k = {"t": "relative", "target": rel_target(k, root).hex()}
         fds.append({"n": d["n"], "kind": k, "pos": d["pos"], "flags": d["flags"], "tail": d.get("tail", ""),
-                    "closes": d.get("closes")})
-    files, others = impl.fs_view(texts)
-    return {"op": "table", "fds": fds, "files": files, "others": others,
-            "gone_before": bool(case.get("gone_before")), "dies_at": case.get("dies_at")}
+                    "closes": d.get("closes"), "denied": d.get("denied")})
+    files, others, denied = impl.fs_view(texts)
+    return {"op": "table", "fds": fds, "files": files, "others": others, "denied": denied,
+            "gone_before": bool(case.get("gone_before")), "dies_at": case.get("dies_at"),
+            "zombie": bool(case.get("zombie")), "dir_denied": bool(case.get("dir_denied"))}
 
 
 def raw_line(impl, case):
@@ -392,9 +507,10 @@ def raw_line(impl, case):
         if "ok" in link:
             texts.append(bytes.fromhex(link["ok"]))
         entries.append({"name": e["name"], "link": link, "info": e["info"]})
-    files, others = impl.fs_view(texts)
+    files, others, denied = impl.fs_view(texts)
     return {"op": "raw", "listdir": case.get("listdir", "ok"), "alive": not case.get("gone_after", False),
-            "entries": entries, "files": files, "others": others}
+            "zombie": bool(case.get("zombie")),
+            "entries": entries, "files": files, "others": others, "denied": denied}
 
 
 # ------------------------------------------------------------------------------ running cases
@@ -431,35 +547,40 @@ def eval_table(impl, case, out):
     da = case.get("dies_at")
     dies = da if (da is not None and da < n) else None
     obs = {}
+    mode = case.get("mode", "plain")
+    zombie = bool(case.get("zombie"))
     for what in ("open_files", "num_fds"):
-        plan = impl.build_proc(entries)
-        obs[what] = impl.call(what, plan, dies_at=dies if what == "open_files" else None,
-                              gone_before=bool(case.get("gone_before")))
-    if dies is not None:
+        obs[what] = impl.call(what, lambda: impl.build_proc(entries, zombie=zombie),
+                              dies_at=dies if what == "open_files" else None,
+                              gone_before=bool(case.get("gone_before")),
+                              listdir_err=errno.EACCES if case.get("dir_denied") else None, mode=mode)
+    if dies is not None and not case.get("dir_denied") and not case.get("gone_before"):
         # num_fds is a single listdir: the process is still there when it runs
         model_num = {"kind": "ok", "value": n}
         spec_num = {"kind": "ok", "value": n}
     else:
         model_num, spec_num = out["model"]["num_fds"], out["spec"]["num_fds"]
-    model = {"open_files": out["model"]["open_files"], "num_fds": model_num}
-    spec = {"open_files": out["spec"]["open_files"], "num_fds": spec_num} if out["wf"] else None
+    model = {"open_files": adapt(mode, out["model"]["open_files"]), "num_fds": adapt(mode, model_num)}
+    spec = {"open_files": adapt(mode, out["spec"]["open_files"]), "num_fds": adapt(mode, spec_num)} if out["wf"] else None
     return obs, model, spec
 
 
 def eval_raw(impl, case, line):
     entries = line["entries"]
     obs = {}
+    zombie = bool(case.get("zombie"))
     for what in ("open_files", "num_fds"):
-        plan = impl.build_proc(entries)
         le = case.get("listdir", "ok")
-        obs[what] = impl.call(what, plan, listdir_err=None if le == "ok" else getattr(errno, le),
-                              gone_after=bool(case.get("gone_after")) and what == "open_files")
+        obs[what] = impl.call(what, lambda: impl.build_proc(entries, zombie=zombie),
+                              listdir_err=None if le == "ok" else getattr(errno, le),
+                              gone_after=bool(case.get("gone_after")) and what == "open_files",
+                              mode=case.get("mode", "plain"))
     return obs
 
 
-def _io_call(impl, file_res, alive=True):
-    plan = impl.build_proc([], io=file_res)
-    return impl.call("io_counters", plan, gone_before=not alive)
+def _io_call(impl, file_res, alive=True, mode="plain", zombie=False):
+    return impl.call("io_counters", lambda: impl.build_proc([], io=file_res, zombie=zombie),
+                     gone_before=not alive, mode=mode)
 
 
 def judge(res, inp, im, mo, sp, note=""):
@@ -484,6 +605,7 @@ def run_tables(ctx, impl, cases, res, tag="table"):
         for f in feats:
             res.count("table:" + f)
         res.count("table:descriptors", len(c["fds"]))
+        res.count("mode:" + c.get("mode", "plain"), 2)
         res.count("family:" + c.get("family", tag))
         if not o["wf"]:
             res.count("table:not-wf(model only)")
@@ -502,8 +624,10 @@ def run_raws(ctx, impl, cases, res):
         if "bad" in o:
             raise RuntimeError("driver rejected %r: %s" % (c, o))
         im = eval_raw(impl, c, l)
-        mo = o["model"]
-        k = mo["open_files"]
+        mode = c.get("mode", "plain")
+        k = o["model"]["open_files"]
+        mo = {w: adapt(mode, v) for w, v in o["model"].items()}
+        res.count("mode:" + mode, 2)
         res.count("raw:" + (k["exc"] if k["kind"] == "exc" else "ok"))
         res.count("family:raw:" + c.get("family", "raw"))
         res.case(("raw", c), nontrivial=True)
@@ -518,7 +642,11 @@ def run_io_items(ctx, impl, cases, res):
     for c, o in zip(cases, outs):
         if "bad" in o:
             raise RuntimeError("driver rejected %r: %s" % (c, o))
-        im = _io_call(impl, {"ok": o["render"]})
+        mode = c.get("mode", "plain")
+        im = _io_call(impl, {"ok": o["render"]}, mode=mode, zombie=bool(c.get("zombie")))
+        res.count("mode:" + mode)
+        if c.get("zombie"):
+            res.count("io:zombie")
         sp = o["spec"] if (o["wf"] and o["distinct"]) else None
         kinds = {i["t"] for i in c["items"]}
         for k in kinds:
@@ -539,21 +667,29 @@ def run_io_raws(ctx, impl, cases, res):
     def model_file(fr):
         # an exception out of the read loop propagates exactly like one out of open()
         return {"err": fr["read_err"]["errno"]} if fr.get("read_err") else fr
-    outs = ctx.driver().batch([{"op": "io_raw", "alive": c.get("alive", True), "file": model_file(c["file"])} for c in cases])
+    outs = ctx.driver().batch([{"op": "io_raw", "alive": c.get("alive", True), "zombie": bool(c.get("zombie")),
+                                "file": model_file(c["file"])} for c in cases])
     for c, o in zip(cases, outs):
         if "bad" in o:
             raise RuntimeError("driver rejected %r: %s" % (c, o))
-        im = _io_call(impl, c["file"], alive=c.get("alive", True))
+        mode = c.get("mode", "plain")
+        im = _io_call(impl, c["file"], alive=c.get("alive", True), mode=mode, zombie=bool(c.get("zombie")))
+        res.count("mode:" + mode)
         res.count("io_raw:" + (o["model"]["exc"] if o["model"]["kind"] == "exc" else "ok"))
         res.count("family:io_raw:" + c.get("family", "raw"))
         res.case(("io_raw", c), nontrivial=True)
-        judge(res, {"family": "io_raw", "case": c}, im, o["model"], None)
+        judge(res, {"family": "io_raw", "case": c}, im, adapt(mode, o["model"]), None)
     return len(cases)
 
 
 def _short(x):
     s = repr(x)
     return s if len(s) < 400 else s[:400] + "…"
+
+
+def sp_exc(out):
+    sp = out["spec"]["open_files"]
+    return sp.get("exc") if sp["kind"] == "exc" else None
 
 
 def table_features(case, out):
@@ -567,6 +703,10 @@ def table_features(case, out):
             f.add("deleted-suffix")
         if d.get("closes"):
             f.add("closes-%s%s-%s" % (d["closes"]["stage"], "-2nd" if d["closes"].get("second") else "", d["closes"]["errno"]))
+        if d.get("denied"):
+            f.add("denied-at-" + d["denied"])
+        if k["t"] in ("regular", "device") and k["path"][0] == "R" and bytes.fromhex(k["path"][1]).startswith(SEC):
+            f.add("denied-stat-" + k["t"])
         if d["flags"] & 3 == 3:
             f.add("accmode3")
         if d["flags"] & O_APPEND:
@@ -575,6 +715,12 @@ def table_features(case, out):
             f.add("huge-offset")
     if case.get("gone_before"):
         f.add("gone-before")
+    if case.get("zombie"):
+        f.add("zombie")
+    if case.get("dir_denied"):
+        f.add("dir-denied")
+    if sp_exc(out) == "AccessDenied":
+        f.add("spec-AccessDenied")
     if case.get("dies_at") is not None and case["dies_at"] < len(case["fds"]):
         f.add("dies-during-scan")
     sp = out["spec"]["open_files"]
@@ -659,10 +805,15 @@ def gen_table(rng, family):
     n = rng.choice([0, 1, 2, 3, 4, 5, 8, 13, 21, 40, 64]) if family != "small" else rng.randrange(0, 5)
     if family == "empty":
         n = 0
+    if family == "zombie":
+        n = 0 if rng.random() < 0.7 else rng.randrange(1, 3)
+    if family == "denied":
+        n = max(n, 1) if n <= 21 else 8
     nums = rng.sample(range(0, 400), n)
     if rng.random() < 0.5:
         nums.sort()
-    p_close = {"closing": 0.4, "all_closing": 1.0}.get(family, 0.08 if family in ("mixed", "dies") else 0.0)
+    p_close = {"closing": 0.4, "all_closing": 1.0}.get(family, 0.08 if family in ("mixed", "dies", "denied") else 0.0)
+    denied_at = rng.randrange(n) if (family == "denied" and n) else None
     fds = []
     for i in range(n):
         kind = gen_kind(rng, allow_ambiguous=(family == "ambiguous"))
@@ -678,9 +829,34 @@ def gen_table(rng, family):
                 {"t": "device", "path": A("/memfd:psv (deleted)")},
                 {"t": "device", "path": P(b"dir (deleted)")},
             ])
+        deny = None
+        if family == "denied" and (i == denied_at or rng.random() < 0.1):
+            r = rng.random()
+            if r < 0.3:
+                deny = "readlink"
+            elif r < 0.5:
+                deny = "fdinfo"
+                if rng.random() < 0.7:
+                    kind = {"t": "regular", "path": P(rng.choice(POOL_FILES[:7])), "deleted": False}
+            elif r < 0.85:
+                kind = {"t": "regular", "path": P(rng.choice(POOL_DENIED)), "deleted": rng.random() < 0.4}
+            else:
+                kind = {"t": "device", "path": P(rng.choice([b"sec", b"sec/dev (deleted)", b"sec/dir"]))}
         fds.append({"n": nums[i], "kind": kind, "pos": gen_pos(rng), "flags": gen_flags(rng),
-                    "tail": rng.choice(TAILS).hex(), "closes": gen_closes(rng, p_close)})
-    case = {"family": family, "fds": fds, "gone_before": False, "dies_at": None}
+                    "tail": rng.choice(TAILS).hex(), "closes": gen_closes(rng, p_close), "denied": deny})
+    case = {"family": family, "fds": fds, "gone_before": False, "dies_at": None, "mode": pick_mode(rng)}
+    if family == "zombie":
+        case["zombie"] = True
+        if rng.random() < 0.3:
+            case["dir_denied"] = True      # what a non-root monitor sees: the directory belongs to root
+    if family == "denied":
+        r = rng.random()
+        if r < 0.12:
+            case["dir_denied"] = True
+        elif r < 0.3:
+            case["dies_at"] = rng.randrange(0, n + 1)
+        elif r < 0.36:
+            case["gone_before"] = True
     if family == "gone":
         case["gone_before"] = True
     if family == "dies":
@@ -689,7 +865,7 @@ def gen_table(rng, family):
 
 
 TABLE_FAMILIES = ["mixed", "regular_only", "closing", "all_closing", "deleted", "dies", "gone", "small",
-                  "ambiguous", "empty", "mixed", "closing"]
+                  "ambiguous", "empty", "mixed", "closing", "denied", "zombie", "denied"]
 
 
 def flag_sweep_tables(words, per=64):
@@ -727,25 +903,29 @@ def gen_raw(rng):
         elif link_r < 0.7:
             link = {"err": rng.choice(["EINVAL", "ENAMETOOLONG"])}
         elif link_r < 0.8:
-            link = {"err": rng.choice(["ENOENT", "ESRCH"])}
+            link = {"err": rng.choice(["ENOENT", "ESRCH", "ENOENT", "ESRCH", "EACCES"])}
         elif link_r < 0.9:
             link = {"ok": rng.choice([b"socket:[5]", b"/dev/null", b"pipe:[1]", b"rel/path", b"/", b"/\x00x"]).hex()}
-        else:
+        elif link_r < 0.96:
             link = {"sym": P(rng.choice(POOL_MISSING))}
+        else:
+            link = {"sym": P(rng.choice(POOL_DENIED)), "suffix": rng.choice([b"", b" (deleted)", b"\x00x"]).hex()}
         ir = rng.random()
         if ir < 0.45:
             info = {"ok": rng.choice(BAD_INFOS).hex()}
         elif ir < 0.85:
             info = {"ok": (b"pos:\t%d\nflags:\t0%o\n" % (gen_pos(rng), gen_flags(rng))).hex()}
         else:
-            info = {"err": rng.choice(["ENOENT", "ESRCH"])}
+            info = {"err": rng.choice(["ENOENT", "ESRCH", "ENOENT", "ESRCH", "EACCES"])}
         if "ok" in info and rng.random() < 0.15:
             info["read_err"] = {"second": rng.random() < 0.5, "errno": rng.choice(["ENOENT", "ESRCH"])}
         entries.append({"name": name.hex(), "link": link, "info": info})
-    case = {"family": "malformed", "entries": entries}
+    case = {"family": "malformed", "entries": entries, "mode": pick_mode(rng)}
+    if rng.random() < 0.2:
+        case["zombie"] = True
     r = rng.random()
-    if r < 0.06:
-        case["listdir"] = rng.choice(["ENOENT", "ESRCH"])
+    if r < 0.08:
+        case["listdir"] = rng.choice(["ENOENT", "ESRCH", "EACCES"])
         case["family"] = "listdir-error"
     elif r < 0.15:
         case["gone_after"] = True
@@ -802,7 +982,10 @@ def gen_io(rng, family):
         for _ in range(rng.randrange(1, 6)):
             items.insert(rng.randrange(len(items) + 1), rng.choice([
                 {"t": "blank", "ws": b"".hex()}, {"t": "junk", "s": b"junk line".hex()}, kv(b"other", gen_val(rng))]))
-    return {"family": family, "items": items}
+    c = {"family": family, "items": items, "mode": pick_mode(rng)}
+    if rng.random() < 0.12:
+        c["zombie"] = True          # the kernel still serves a zombie's io file
+    return c
 
 
 IO_FAMILIES = ["kernel", "shuffled", "blank", "junk", "double_sep", "unknown", "missing", "empty", "duplicate", "badval", "mixed"]
@@ -821,6 +1004,12 @@ IO_RAW = [
     ("padded-values", {"file": {"ok": b"rchar:  1\nwchar: 2 \n  syscr: 3\nsyscw: 4\t\nread_bytes: 05\nwrite_bytes: 6\n".hex()}, "alive": True}),
     ("tab-separated", {"file": {"ok": b"rchar:\t1\nwchar:\t2\nsyscr:\t3\nsyscw:\t4\nread_bytes:\t5\nwrite_bytes:\t6\n".hex()}, "alive": True}),
     ("value-empty", {"file": {"ok": b"rchar: 1\nwchar: 2\nsyscr: 3\nsyscw: 4\nread_bytes: 5\nwrite_bytes: 6\nfoo: \n".hex()}, "alive": True}),
+    ("eacces-on-open", {"file": {"err": "EACCES"}, "alive": True}),
+    ("eacces-on-open-zombie", {"file": {"err": "EACCES"}, "alive": True, "zombie": True}),
+    ("esrch-on-open-zombie", {"file": {"err": "ESRCH"}, "alive": True, "zombie": True}),
+    ("missing-file-zombie", {"file": {"err": "ENOENT"}, "alive": True, "zombie": True}),
+    ("read-esrch-zombie", {"file": {"ok": b"rchar: 1\nwchar: 2\n".hex(), "read_err": {"at": 1, "errno": "ESRCH"}}, "alive": True, "zombie": True}),
+    ("kernel-file-zombie", {"file": {"ok": b"rchar: 1\nwchar: 2\nsyscr: 3\nsyscw: 4\nread_bytes: 5\nwrite_bytes: 6\ncancelled_write_bytes: 0\n".hex()}, "alive": True, "zombie": True}),
 ]
 
 
@@ -855,7 +1044,63 @@ def corpus_tables():
          "gone_before": False, "dies_at": 1},
         {"family": "corpus-gone", "fds": [{"n": 3, "kind": reg, "pos": 1, "flags": 2, "tail": "", "closes": None}],
          "gone_before": True, "dies_at": None},
+        # permission: the target of one descriptor cannot be stat'ed / its link, its fdinfo is refused
+        {"family": "corpus-denied-stat", "fds": [
+            {"n": 3, "kind": reg, "pos": 1, "flags": 2, "tail": "", "closes": None},
+            {"n": 4, "kind": {"t": "regular", "path": P(b"sec/hidden.txt"), "deleted": False}, "pos": 1, "flags": 2, "tail": "", "closes": None}],
+         "gone_before": False, "dies_at": None},
+        {"family": "corpus-denied-stat-deleted", "fds": [
+            {"n": 4, "kind": {"t": "regular", "path": P(b"sec/unlinked"), "deleted": True}, "pos": 1, "flags": 2, "tail": "", "closes": None},
+            {"n": 5, "kind": reg, "pos": 1, "flags": 2, "tail": "", "closes": None}],
+         "gone_before": False, "dies_at": None},
+        {"family": "corpus-denied-readlink", "fds": [
+            {"n": 3, "kind": reg, "pos": 1, "flags": 2, "tail": "", "closes": None},
+            {"n": 4, "kind": {"t": "socket", "ino": 7}, "pos": 0, "flags": 2, "tail": "", "closes": None, "denied": "readlink"}],
+         "gone_before": False, "dies_at": None},
+        {"family": "corpus-denied-fdinfo", "fds": [
+            {"n": 3, "kind": reg, "pos": 1, "flags": 2, "tail": "", "closes": None, "denied": "fdinfo"},
+            {"n": 4, "kind": {"t": "device", "path": A("/dev/null")}, "pos": 0, "flags": 2, "tail": "", "closes": None, "denied": "fdinfo"}],
+         "gone_before": False, "dies_at": None},
+        {"family": "corpus-denied-fdinfo-harmless", "fds": [
+            {"n": 4, "kind": {"t": "device", "path": A("/dev/null")}, "pos": 0, "flags": 2, "tail": "", "closes": None, "denied": "fdinfo"},
+            {"n": 5, "kind": reg, "pos": 1, "flags": 2, "tail": "", "closes": {"stage": "fdinfo", "errno": "ENOENT"}, "denied": "fdinfo"}],
+         "gone_before": False, "dies_at": None},
+        {"family": "corpus-denied-then-dies", "fds": [
+            {"n": 3, "kind": reg, "pos": 1, "flags": 2, "tail": "", "closes": None},
+            {"n": 4, "kind": {"t": "regular", "path": P(b"sec/hidden.txt"), "deleted": False}, "pos": 1, "flags": 2, "tail": "", "closes": None}],
+         "gone_before": False, "dies_at": 1},
+        {"family": "corpus-dir-denied", "fds": [{"n": 3, "kind": reg, "pos": 1, "flags": 2, "tail": "", "closes": None}],
+         "gone_before": False, "dies_at": None, "dir_denied": True},
+        {"family": "corpus-zombie", "fds": [], "gone_before": False, "dies_at": None, "zombie": True},
+        {"family": "corpus-zombie-dir-denied", "fds": [], "gone_before": False, "dies_at": None, "zombie": True, "dir_denied": True},
+        # isfile_strict on things that are not regular files: directory, FIFO, dangling, newline in the name
+        {"family": "corpus-kinds", "fds": [
+            {"n": 3, "kind": {"t": "device", "path": P(b"dir")}, "pos": 0, "flags": 0o200000, "tail": "", "closes": None},
+            {"n": 4, "kind": {"t": "device", "path": P(b"fifo")}, "pos": 0, "flags": 2, "tail": "", "closes": None},
+            {"n": 5, "kind": {"t": "regular", "path": P(b"gone.txt"), "deleted": True}, "pos": 0, "flags": 1, "tail": "", "closes": None},
+            {"n": 6, "kind": {"t": "regular", "path": P(b"new\nline"), "deleted": False}, "pos": 3, "flags": 0o2001, "tail": "", "closes": None},
+            {"n": 7, "kind": {"t": "relative", "target_sym": P(b"f0")}, "pos": 0, "flags": 0, "tail": "", "closes": None},
+            {"n": 8, "kind": {"t": "regular", "path": P(b"sub/nl\n"), "deleted": True}, "pos": 3, "flags": 2, "tail": "", "closes": None},
+            {"n": 9, "kind": {"t": "device", "path": P(b"dir (deleted)")}, "pos": 0, "flags": 0, "tail": "", "closes": None}],
+         "gone_before": False, "dies_at": None},
     ]
+
+
+def corpus_raws():
+    e = {"name": b"3".hex(), "link": {"sym": P(b"f0")}, "info": {"ok": b"pos:\t1\nflags:\t02\n".hex()}}
+    out = []
+    for zombie in (False, True):
+        for ld in ("ENOENT", "ESRCH", "EACCES"):
+            out.append({"family": "corpus-listdir-%s%s" % (ld, "-zombie" if zombie else ""), "entries": [e],
+                        "listdir": ld, "zombie": zombie})
+        # one descriptor whose readlink / fdinfo open / target stat is refused, process running or zombie
+        out.append({"family": "corpus-raw-eacces-link", "zombie": zombie,
+                    "entries": [e, {"name": b"4".hex(), "link": {"err": "EACCES"}, "info": e["info"]}]})
+        out.append({"family": "corpus-raw-eacces-info", "zombie": zombie,
+                    "entries": [{"name": b"4".hex(), "link": {"sym": P(b"f0")}, "info": {"err": "EACCES"}}, e]})
+        out.append({"family": "corpus-raw-eacces-exists", "zombie": zombie,
+                    "entries": [e, {"name": b"5".hex(), "link": {"sym": P(b"sec/x (deleted)")}, "info": e["info"]}]})
+    return out
 
 
 def corpus_io():
@@ -891,25 +1136,30 @@ def correspond(ctx, res):
         # … and end to end through open_files(), 64 descriptors per table
         sweep = flag_sweep_tables(words) + flag_sweep_tables([w | 0o100000 | 0o2000000 for w in range(0, 4096, 64)])
         # ---- corpus, then the families
-        tables = corpus_tables() + sweep
+        base_corpus = corpus_tables()
+        tables = [dict(c, mode=m, family=c["family"]) for m in MODES for c in base_corpus] + sweep
         n = ctx.n(260, 12000)
         for i in range(n):
             tables.append(gen_table(ctx.rng, TABLE_FAMILIES[i % len(TABLE_FAMILIES)]))
         CH = 400
         for a in range(0, len(tables), CH):
             lines += run_tables(ctx, impl, tables[a:a + CH], res)
-        raws = [gen_raw(ctx.rng) for _ in range(ctx.n(200, 8000))]
+        raws = [dict(c, mode=m) for m in MODES for c in corpus_raws()]
+        raws += [gen_raw(ctx.rng) for _ in range(ctx.n(200, 8000))]
         for a in range(0, len(raws), 1000):
             lines += run_raws(ctx, impl, raws[a:a + 1000], res)
-        ios = corpus_io()
+        ios = [dict(c, mode=m) for m in MODES for c in corpus_io()]
         for i in range(ctx.n(330, 12000)):
             ios.append(gen_io(ctx.rng, IO_FAMILIES[i % len(IO_FAMILIES)]))
         for a in range(0, len(ios), 2000):
             lines += run_io_items(ctx, impl, ios[a:a + 2000], res)
-        lines += run_io_raws(ctx, impl, [dict(c, family=f) for f, c in IO_RAW], res)
+        lines += run_io_raws(ctx, impl, [dict(c, family=f, mode=m) for m in MODES for f, c in IO_RAW], res)
         res.exhaustive = ("all 4096 combinations of the twelve low flag bits (access mode x O_CREAT/O_EXCL/O_NOCTTY/O_TRUNC/"
                           "O_APPEND/O_NONBLOCK and the unnamed low bits) through file_flags_to_mode AND end to end through "
-                          "open_files() on 64 tables of 64 regular descriptors; tables, io files and the malformed stream are samples")
+                          "open_files() on 64 tables of 64 regular descriptors; every call mode (%s) x every method on the "
+                          "clause-directed corpus (%d tables incl. the permission / zombie / file-kind ones, %d io files, %d raw io "
+                          "cases); tables, io files and the malformed stream are samples, each in a mode drawn at random"
+                          % (", ".join(MODES), len(base_corpus), len(corpus_io()), len(IO_RAW)))
         res.extra["driver_lines"] = lines
     finally:
         impl.close()
